@@ -442,3 +442,82 @@ def _from_u32(m, st, callee, args, t):
 @model("core::clone::Clone::clone")
 def _clone_generic(m, st, callee, args, t):
     return deref(m, st, args[0])
+
+
+# ------------------------------------------------------------------------------- combinators taking closures
+def _with_post(m, st, fval, cargs, t, post):
+    r = m.call_value(st, fval, cargs, t)
+    if isinstance(r, tuple) and r and r[0] is INLINE:
+        return (INLINE, r[1], r[2], post)
+    if isinstance(r, Outcome):
+        return r
+    return post(m, st, r)
+
+
+@model("core::result::Result::<T, E>::map_err")
+def _map_err(m, st, callee, args, t):
+    r = need_adt(m, st, args[0], "map_err")
+    if r.variant == 0:
+        return r
+    return _with_post(m, st, args[1], [r.fields[0]], t, lambda mm, ss, v: err(v))
+
+
+@model("core::result::Result::<T, E>::map")
+def _res_map(m, st, callee, args, t):
+    r = need_adt(m, st, args[0], "map")
+    if r.variant == 1:
+        return r
+    return _with_post(m, st, args[1], [r.fields[0]], t, lambda mm, ss, v: ok(v))
+
+
+@model("core::option::Option::<T>::map")
+def _opt_map(m, st, callee, args, t):
+    r = need_adt(m, st, args[0], "map")
+    if r.variant == 0:
+        return r
+    return _with_post(m, st, args[1], [r.fields[0]], t, lambda mm, ss, v: some(v))
+
+
+@model("core::result::Result::<T, E>::and_then")
+def _res_and_then(m, st, callee, args, t):
+    r = need_adt(m, st, args[0], "and_then")
+    if r.variant == 1:
+        return r
+    return _with_post(m, st, args[1], [r.fields[0]], t, lambda mm, ss, v: v)
+
+
+@model("core::option::Option::<T>::ok_or_else")
+def _ok_or_else(m, st, callee, args, t):
+    o = need_adt(m, st, args[0], "ok_or_else")
+    if o.variant == 1:
+        return ok(o.fields[0])
+    return _with_post(m, st, args[1], [], t, lambda mm, ss, v: err(v))
+
+
+@model("core::result::Result::<T, E>::unwrap_or", "core::option::Option::<T>::unwrap_or")
+def _unwrap_or(m, st, callee, args, t):
+    o = need_adt(m, st, args[0], "unwrap_or")
+    good = 0 if o.ty == RESULT else 1
+    return o.fields[0] if o.variant == good else args[1]
+
+
+@model("core::result::Result::<T, E>::unwrap_or_default", "core::option::Option::<T>::unwrap_or_default")
+def _unwrap_or_default(m, st, callee, args, t):
+    o = need_adt(m, st, args[0], "unwrap_or_default")
+    good = 0 if o.ty == RESULT else 1
+    if o.variant == good:
+        return o.fields[0]
+    fr = st.frames[-1]
+    dty = fr.body.locals[t["dest"]["l"]]["ty"]
+    if dty == "bool":
+        return boolean(False)
+    raise AnalysisError("unwrap_or_default of type %s" % dty)
+
+
+@model("core::result::Result::<T, E>::is_ok_and", "core::option::Option::<T>::is_some_and")
+def _is_ok_and(m, st, callee, args, t):
+    o = need_adt(m, st, args[0], "is_ok_and")
+    good = 0 if o.ty == RESULT else 1
+    if o.variant != good:
+        return boolean(False)
+    return _with_post(m, st, args[1], [o.fields[0]], t, lambda mm, ss, v: v)
